@@ -133,6 +133,11 @@ def generate(rng, tier):
     init_ids = rng.sample(order, min(n_init, len(order)))
     init_flat = {sid: descr_for(sid) for sid in init_ids}
     init = colorgen.nest(init_flat, rng)
+    init_alias = []
+    groups = [k for k, v in (init or {}).items() if isinstance(v, dict)]
+    if groups and rng.random() < 0.3:
+        # the very same dict object used for two groups of the configuration (e.g. a YAML alias)
+        init_alias.append([rng.choice(groups), "ALIAS" + str(rng.randrange(3))])
     if not init and rng.random() < 0.5:
         init = None
     elif rng.random() < 0.1:
@@ -176,7 +181,8 @@ def generate(rng, tier):
             ops.append(dict(d) if d["op"] == "use" else {"op": "read"})
     if rng.random() < 0.5:
         ops.append({"op": "make_global"})
-    return {"no_color": no_color, "init": init, "components": comps, "ops": ops}
+    return {"no_color": no_color, "init": init, "init_alias": init_alias, "components": comps, "ops": ops,
+            "conf_subclass": rng.random() < 0.1}
 
 
 def simplify(trace):
@@ -218,6 +224,29 @@ def simplify(trace):
 # --------------------------------------------------------------------------
 # execution
 
+def real_init(trace):
+    """the explicit configuration as handed to the constructor: aliased groups are the SAME dict object"""
+    init = trace.get("init")
+    if init is None:
+        return None
+    init = json.loads(json.dumps(init))
+    for src, dst in trace.get("init_alias") or ():
+        if isinstance(init.get(src), dict) and dst not in init:
+            init[dst] = init[src]
+    return init
+
+
+def conf_class(trace, color):
+    if not trace.get("conf_subclass"):
+        return color.ColorsConfig
+
+    class AppColorsConfig(color.ColorsConfig):
+        """a user's subclass with more built-in syntax"""
+        __slots__ = ()
+        BUILT_IN_CONFIG = dict(color.ColorsConfig.BUILT_IN_CONFIG, **{"APP.MARK": "CYAN:bold", "APP.SUB": "APP.MARK:no_bold"})
+    return AppColorsConfig
+
+
 class World:
     def __init__(self, trace, log):
         from ak import color
@@ -225,7 +254,9 @@ class World:
         self.trace = trace
         self.log = log
         self.no_color = bool(trace.get("no_color"))
-        self.builtin_flat = flatten(color.ColorsConfig.BUILT_IN_CONFIG)
+        self.conf_cls = conf_class(trace, color)
+        self.builtin_flat = flatten(self.conf_cls.BUILT_IN_CONFIG)
+        self.default_builtin_flat = flatten(color.ColorsConfig.BUILT_IN_CONFIG)
         self.classes = {}
         self.comp_spec = {c["name"]: c for c in trace["components"]}
         self.stats = {"deliveries": 0, "late_resolutions": 0, "explicit_wins": 0, "checks": 0, "global_checks": 0,
@@ -430,7 +461,7 @@ def full_set_is_acyclic(world, trace):
     """guard: the generated set must be acyclic also together with the real defaults"""
     reg = Registry()
     try:
-        reg.deliver(flatten(trace["init"] or {}))
+        reg.deliver(flatten(real_init(trace) or {}))
         reg.deliver(world.builtin_flat)
         for op in trace["ops"]:
             if op["op"] == "use" and (op["comp"] in REAL or op["comp"] in world.comp_spec):
@@ -462,17 +493,17 @@ def execute(trace, rng):
             w.stats["skipped_cyclic"] += 1
             raise _Skip()
         nc = w.no_color
-        M = w.sut("ColorsConfig(init)", color.ColorsConfig, trace["init"], no_color=nc)
+        M = w.sut("ColorsConfig(init)", w.conf_cls, real_init(trace), no_color=nc)
         regM = Registry()
-        regM.deliver(flatten(trace["init"] or {}))
+        regM.deliver(flatten(real_init(trace) or {}))
         before = {sid: regM.is_resolved(sid) for sid in regM.items}
         regM.deliver(w.builtin_flat)
         w.count_late(regM, before)
-        w.stats["explicit_wins"] += sum(1 for sid in flatten(trace["init"] or {}) if sid in w.builtin_flat)
+        w.stats["explicit_wins"] += sum(1 for sid in flatten(real_init(trace) or {}) if sid in w.builtin_flat)
         # the import-time global configuration: built-ins only
         G = color.get_global_colors_config()
         regG = Registry()
-        regG.deliver(w.builtin_flat)
+        regG.deliver(w.default_builtin_flat)
         g_registered = []
         glabel = "O"
         w.check_conf(M, regM, w.used, "M")
@@ -527,7 +558,7 @@ def execute(trace, rng):
                 w.sut("set_global_colors_config(None)", color.set_global_colors_config, None)
                 G = color.get_global_colors_config()
                 regG = Registry()
-                regG.deliver(w.builtin_flat)
+                regG.deliver(w.default_builtin_flat)
                 g_registered = []
                 glabel = "O"
                 for name, _ in w.synced:
@@ -555,7 +586,8 @@ def execute(trace, rng):
         # final: same set, canonical order, pristine process
         if not w.quarantine:
             rep = w.sut("make_report", M.make_report)
-            ref = rw.reference({"kind": "c14report", "init": trace["init"], "no_color": nc,
+            ref = rw.reference({"kind": "c14report", "init": trace["init"], "init_alias": trace.get("init_alias"),
+                                "conf_subclass": trace.get("conf_subclass"), "no_color": nc,
                                 "components": trace["components"],
                                 "delivered": canonical(w.delivered_log)})
             w.stats["reports_compared"] += 1
@@ -573,7 +605,8 @@ def execute(trace, rng):
     st = dict(w.stats)
     st["ref_requests"] = rw.ref_requests()
     nontrivial = bool(w.stats["late_resolutions"] or w.stats["explicit_wins"])
-    h = hashlib.blake2b(json.dumps([trace["init"], trace["components"], trace["ops"], trace.get("no_color")],
+    h = hashlib.blake2b(json.dumps([trace["init"], trace.get("init_alias"), trace.get("conf_subclass"),
+                                    trace["components"], trace["ops"], trace.get("no_color")],
                                    sort_keys=True).encode(), digest_size=8).hexdigest()
     status.update({"digest": log.digest(), "stats": st, "nontrivial": nontrivial, "case": h,
                    "sim_steps": len(trace["ops"])})
@@ -611,10 +644,11 @@ def first_diff(a, b):
 def reference_report(payload):
     """pristine process: deliver the same set in canonical order, return make_report()"""
     from ak import color
-    trace = {"components": payload["components"], "no_color": payload["no_color"], "init": payload["init"], "ops": []}
+    trace = {"components": payload["components"], "no_color": payload["no_color"], "init": payload["init"], "ops": [],
+             "init_alias": payload.get("init_alias"), "conf_subclass": payload.get("conf_subclass")}
     w = World(trace, EventLog())
     try:
-        conf = color.ColorsConfig(payload["init"], no_color=bool(payload["no_color"]))
+        conf = w.conf_cls(real_init(trace), no_color=bool(payload["no_color"]))
         for name in payload["delivered"]["comps"]:
             w.cls(name)(conf)
         if payload["delivered"]["items"]:
